@@ -14,6 +14,10 @@ use weechess_core::{
 
 mod cmds;
 
+pub fn unescape_pub(s: &str) -> String {
+    unescape(s)
+}
+
 fn unescape(s: &str) -> String {
     let mut out = String::new();
     let b: Vec<char> = s.chars().collect();
